@@ -840,6 +840,63 @@ theorem stripped_body_is_library {β ν δ : Type} (lib : Lib β ν δ) (hm : Mo
       | err e => exact ⟨rfl, h2⟩
       | panic => exact ⟨rfl, h2⟩
 
+/-- **The verdict `prepareStripped` waits for, computed.**  For a body with one
+question whose type is not a DNSSEC type (an RRSIG question never gets a
+stripped body; NSEC/NSEC3 questions are the stated exception), stripping
+RRSIG / NSEC / NSEC3 from answer and authority (a) leaves no DNSSEC flag,
+(b) does not change chase safety — the terminal-qtype and CNAME answers are
+not what is removed — so (c) the stripped body is servable exactly when the
+full body is chase-safe: whether an entry gets its DO=0 body is decided by the
+message, never by which packer encoded it. -/
+theorem stripped_verdict (qtype rcode : Nat) (an ns : List Nat) (hq : secTypes.contains qtype = false) :
+    (wireServeFlags 1 qtype rcode (stripTypes an) (stripTypes ns)).hasDNSSEC = false ∧
+    (wireServeFlags 1 qtype rcode (stripTypes an) (stripTypes ns)).chaseSafe =
+      (wireServeFlags 1 qtype rcode an ns).chaseSafe ∧
+    (wireServeFlags 1 qtype rcode (stripTypes an) (stripTypes ns)).servable =
+      (wireServeFlags 1 qtype rcode an ns).chaseSafe := by
+  have hsec : ((stripTypes an ++ stripTypes ns).any fun t => secTypes.contains t) = false := by
+    rw [List.any_eq_false]
+    intro t ht
+    simp only [stripTypes, List.mem_append, List.mem_filter] at ht
+    rcases ht with ⟨_, h⟩ | ⟨_, h⟩ <;> simpa using h
+  have hcontains : ∀ (x : Nat), secTypes.contains x = false → (stripTypes an).contains x = an.contains x := by
+    intro x hx
+    rw [Bool.eq_iff_iff, List.contains_iff_mem, List.contains_iff_mem]
+    simp only [stripTypes, List.mem_filter]
+    constructor
+    · exact fun h => h.1
+    · exact fun h => ⟨h, by rw [hx]; rfl⟩
+  have e1 := hcontains qtype hq
+  have e2 := hcontains 5 (by decide)
+  have unf : ∀ a n, wireServeFlags 1 qtype rcode a n =
+      ⟨true, (a ++ n).any (fun t => secTypes.contains t),
+        rcode == 3 || qtype == 5 || qtype == 43 || a.contains qtype || !a.contains 5⟩ := by
+    intro a n; rfl
+  rw [unf, unf, hsec, e1, e2]
+  exact ⟨rfl, rfl, by simp [ServeFlags.servable]⟩
+
+/-- a body without exactly one question is never byte-served, and an RRSIG /
+NSEC / NSEC3 record anywhere in answer or authority sets the DNSSEC flag. -/
+theorem serve_flags_basics (qd qtype rcode : Nat) (an ns : List Nat) :
+    (qd ≠ 1 → wireServeFlags qd qtype rcode an ns = ⟨false, false, false⟩) ∧
+    (qd = 1 → ((wireServeFlags qd qtype rcode an ns).hasDNSSEC = true ↔ ∃ t ∈ an ++ ns, t ∈ secTypes)) := by
+  constructor
+  · intro h; simp [wireServeFlags, h]
+  · intro h
+    subst h
+    show ((an ++ ns).any fun t => secTypes.contains t) = true ↔ _
+    rw [List.any_eq_true]
+    constructor
+    · rintro ⟨t, ht, hc⟩; exact ⟨t, ht, List.contains_iff_mem.mp hc⟩
+    · rintro ⟨t, ht, hc⟩; exact ⟨t, ht, List.contains_iff_mem.mpr hc⟩
+
+-- a signed TXT answer (TXT, TXT, RRSIG | NSEC, RRSIG): DNSSEC-flagged, chase-safe; stripped: servable, no flag
+example : wireServeFlags 1 16 0 [16, 16, 46] [47, 46] = ⟨true, true, true⟩ ∧
+    (wireServeFlags 1 16 0 (stripTypes [16, 16, 46]) (stripTypes [47, 46])).servable = true := by decide
+-- an alias without the terminal record is not chase-safe, stripped or not; NXDOMAIN is
+example : (wireServeFlags 1 1 0 [5, 46] []).chaseSafe = false ∧ (wireServeFlags 1 1 0 (stripTypes [5, 46]) []).servable = false ∧
+    (wireServeFlags 1 1 3 [5, 46] []).chaseSafe = true := by decide
+
 /-- the additional section of the view keeps every record that is not a
 `*dns.OPT`, in order, and nothing else. -/
 theorem storableView_extra {β ν : Type} (heap : Heap β) (m : Msg ν) (s : Slot) :
